@@ -187,6 +187,8 @@ inductive Op
   | precompute (ops : List (Meth × Int × Bool))
   /-- model functions, as the sequence of final queries they issue -/
   | beamspread | revBeamspread | transRefl
+  /-- `reverse_transmission_reflection_for_path`: reads the same incidence angles, in the same order, as the forward function -/
+  | revTransRefl
 deriving Repr
 
 def clearIntermediate (s : St) : St :=
@@ -228,5 +230,6 @@ def step (g : Geo) (s : St) : Op → List Res × St
   | .beamspread => runQueries g s (beamspreadQueries g)
   | .revBeamspread => runQueries g s (revBeamspreadQueries g)
   | .transRefl => runQueries g s (transReflQueries g)
+  | .revTransRefl => runQueries g s (transReflQueries g)
 
 end Arim.RayCache
